@@ -2,5 +2,7 @@ SPECIFICATION Spec
 CONSTANTS
   MaxDepth = 6
   RetryOnce = FALSE
+  RememberENOENT = FALSE
+  UnmaskedViaOpenTree = FALSE
 INVARIANTS HandlesBounded MissingIsENOENT ExistingIsFound
 CHECK_DEADLOCK FALSE
